@@ -27,12 +27,18 @@
 EXTENDS Integers, Sequences, FiniteSets, TLC
 
 CONSTANTS M,          \* MAX_OPINION_PAGE_COUNT (150 in the code)
+          HugeFix,    \* TRUE: the code as repaired (a page int() cannot convert is beyond every pin cite);
+                      \* FALSE: the original code (int(page) raises ValueError for > 4300 digits)
           Alphabet,   \* the citations that can occur (model checking only)
           MaxPh       \* bound on placeholder-page case citations per list (model checking only)
 
 NoPage  == -1
 NoGroup == -2
 NonNumeric == -3      \* a page group that is not a number (e.g. "95,342"): identified by its text in `id`
+Big     == -4         \* an all-digit page beyond every pin cite of the alphabet (10 .. 4300 digits); text in `id`
+Huge    == -5         \* an all-digit page of more digits than int() converts (sys.get_int_max_str_digits()
+                      \* = 4300 since Python 3.11); text in `id`
+TextPages == {NonNumeric, Big, Huge}
 NoPin   == -1
 BadPin  == -2
 NoName  == "-"
@@ -55,7 +61,7 @@ core == <<fulls, last, nph>>        \* VIEW for model checking: observations hid
 ResourceOf(c, n) ==
     IF c.k = "fc"
     THEN IF c.pg = NoPage THEN <<"ph", "", n + 1>>      \* hash by identity: fresh
-                          ELSE IF c.pg = NonNumeric THEN <<"fc", c.rv \o "#" \o c.id, c.pg>>
+                          ELSE IF c.pg \in TextPages THEN <<"fc", c.rv \o "#" \o c.id, c.pg>>
                           ELSE <<"fc", c.rv, c.pg>>     \* volume, reporter, page
     ELSE <<c.k, c.id, c.pg>>                            \* all groups + editions
 
@@ -88,7 +94,9 @@ InvalidPin(r, c) ==
     IF HeadPage(r) = NoPage THEN <<TRUE, "none">>               \* known missing page (any kind)
     ELSE IF c.pin = NoPin THEN <<FALSE, "none">>
     ELSE IF HeadPage(r) \in {NoGroup, NonNumeric} THEN <<FALSE, "none">>   \* groups.get("page","") not all digits
+    ELSE IF HeadPage(r) = Huge THEN IF HugeFix THEN <<TRUE, "none">> ELSE <<FALSE, "ValueError">>   \* int(page)
     ELSE IF c.pin = BadPin THEN <<TRUE, "none">>
+    ELSE IF HeadPage(r) = Big THEN <<TRUE, "none">>                       \* every pin cite lies before it
     ELSE <<c.pin < HeadPage(r) \/ c.pin > HeadPage(r) + M, "none">>
 
 ResolveId(c) ==
@@ -141,6 +149,7 @@ Candidates(c) ==
                        ELSE IF c.pin = NoPin THEN {last}
                        ELSE IF HeadPage(last) \in {NoGroup, NonNumeric} THEN {last}
                        ELSE IF c.pin = BadPin THEN {}
+                       ELSE IF HeadPage(last) \in {Big, Huge} THEN {}      \* the pin cite lies before the first page
                        ELSE IF c.pin < HeadPage(last) \/ c.pin > HeadPage(last) + M THEN {}
                        ELSE {last}
       [] OTHER      -> {}
